@@ -28,6 +28,10 @@ Fixpoint bs_insert (k : bytes) (l : list bytes) : list bytes :=
   match l with [] => [k] | k' :: l' => if bytes_ltb k' k then k' :: bs_insert k l' else k :: l end.
 Definition bs_sort (l : list bytes) : list bytes := fold_right bs_insert [] l.
 
+(* map entries are rendered in the encoder's order: bytewise by the CBOR encoding of the key *)
+Definition key_order (k : val) : bytes :=
+  match enc 3 TAny k with Ok b => b | _ => [] end.
+
 Fixpoint render_val (v : val) : bytes :=
   match v with
   | VInt z => s "(i z:"%bs ++ hexnumZ z ++ s ")"%bs
@@ -36,8 +40,9 @@ Fixpoint render_val (v : val) : bytes :=
   | VBytes b => s "(b b:"%bs ++ hex b ++ s ")"%bs
   | VText b => s "(t b:"%bs ++ hex b ++ s ")"%bs
   | VList l => s "(l"%bs ++ flat_map (fun x => sp ++ render_val x) l ++ s ")"%bs
-  | VMap m => s "(m"%bs ++ flat_map (fun x => sp ++ x)
-                (bs_sort (map (fun kv => s "("%bs ++ render_val (fst kv) ++ sp ++ render_val (snd kv) ++ s ")"%bs) m))
+  | VMap m => s "(m"%bs ++ flat_map (fun x => sp ++ snd x)
+                (kv_sort (map (fun kv => (key_order (fst kv),
+                                          s "("%bs ++ render_val (fst kv) ++ sp ++ render_val (snd kv) ++ s ")"%bs)) m))
               ++ s ")"%bs
   | VNull => s "N"%bs
   | VTag n x => s "(tag n:"%bs ++ hexnum n ++ sp ++ render_val x ++ s ")"%bs
